@@ -239,6 +239,7 @@ def run(ctx):
             ctx.violate('eval-dimensionless-qty', 'a quantity with all exponents zero was returned instead of a plain number',
                         {'op': 'eval', 'text': t}, 'number', r)
     conv_oracle(ctx, g)
+    recombination_oracle(ctx)
     keep = [i for i, r in enumerate(res) if r.get('exc') != 'OverflowError' and r.get('kind') not in ('complex', 'other')
             and not (r.get('exc') == 'Timeout')]
     T = [texts[i] for i in keep]
@@ -255,6 +256,29 @@ def run(ctx):
                 'length %d over a 13-token alphabet (sampled in quick); fixed corner cases. distinct by text; non-trivial = more than one character'
                 % ctx.n(3, 4),
         'histogram': dict(hist, outcomes=kinds), 'correspondence_cases': len(T), 'correspondence_mismatches': len(bad)})
+
+
+RECOMB = [
+    ('m^0.7*m^0.2*m^0.1', [1, 0, 0, 0, 0, 0, 0]), ('m^0.7 m^0.2 m^0.1', [1, 0, 0, 0, 0, 0, 0]),
+    ('m / m^0.7 / m^0.2 / m^0.1', None), ('(m^0.1 m^0.2)^10', [3, 0, 0, 0, 0, 0, 0]), ('(s^0.28)^25', [0, 0, 7, 0, 0, 0, 0]),
+    ('((K^0.1)^3)^10', [0, 0, 0, 0, 3, 0, 0]), ('(kg^0.3)^10/kg^3', None), ('J^0.1 J^0.2 J^0.3 J^0.4', [2, 1, -2, 0, 0, 0, 0]),
+    ('(m^0.7)^10', [7, 0, 0, 0, 0, 0, 0]), ('m^2.2*m^0.7*m^0.1', [3, 0, 0, 0, 0, 0, 0]), ('(mol^0.6 mol^0.3 mol^0.1)^3', [0, 0, 0, 0, 0, 3, 0]),
+    ('s^0.1/s^0.3/s^0.7*s^0.9', None), ('(A^0.2)^5 (A^0.3)^10/A^4', None), ('((m^0.1)^7 (m^0.1)^3)^2', [2, 0, 0, 0, 0, 0, 0]),
+]
+
+
+def recombination_oracle(ctx):
+    """fractional exponents that add / scale to an integer must come out as
+    exactly that integer (the package rounds exponents within 1e-7), and as a
+    plain number when everything cancels"""
+    res = vlib.run_impl_sharded('units', [{'op': 'eval', 'text': t} for t, _ in RECOMB])
+    for (t, want), r in zip(RECOMB, res):
+        ctx.count('recomb:' + t)
+        if want is None:
+            if r.get('kind') != 'num':
+                ctx.violate('recomb:' + t, 'exponents that cancel do not give a plain number', {'op': 'eval', 'text': t}, 'plain number', r)
+        elif r.get('kind') != 'qty' or r.get('exps') != [float(x) for x in want]:
+            ctx.violate('recomb:' + t, 'exponents that add or scale to an integer are not that integer', {'op': 'eval', 'text': t}, want, r)
 
 
 def conv_oracle(ctx, g):
